@@ -8,11 +8,14 @@ import (
 	"encoding/binary"
 	"encoding/json"
 	"fmt"
+	"io"
+	"log"
 	"net"
 	"os"
 	"path/filepath"
 	"sort"
 	"strings"
+	"sync"
 
 	rocksdb "github.com/facebookincubator/dns/dnsrocks/cgo-rocksdb"
 	"github.com/facebookincubator/dns/dnsrocks/dnsdata"
@@ -321,7 +324,7 @@ func dumpRDB(dir string) ([]dumpEnt, error) {
 	return res, nil
 }
 
-func compileDump(scratch string, text []byte, serial uint32, v2 bool) (d []dumpEnt, errs string) {
+func compileDump(scratch string, text []byte, serial uint32, v2 bool, builder bool) (d []dumpEnt, errs string) {
 	d = []dumpEnt{}
 	defer func() {
 		if e := recover(); e != nil {
@@ -333,7 +336,7 @@ func compileDump(scratch string, text []byte, serial uint32, v2 bool) (d []dumpE
 		return d, "mkdir"
 	}
 	defer os.RemoveAll(dir)
-	if _, err := rdb.Compile(bytes.NewReader(text), serial, dir, rdb.CompilationOptions{UseV2KeySyntax: v2, UseBuilder: true, NumCPU: 2}); err != nil {
+	if _, err := rdb.Compile(bytes.NewReader(text), serial, dir, rdb.CompilationOptions{UseV2KeySyntax: v2, UseBuilder: builder, NumCPU: 2, BatchNumParallel: 2}); err != nil {
 		return d, "compile"
 	}
 	dd, err := dumpRDB(dir)
@@ -361,6 +364,7 @@ func intsLines(ls [][]byte) [][]int {
 }
 
 func runFile(scratch string, lines [][]byte, v2 bool, serial, preSerial uint32, class string, wf bool) fileCase {
+	builder := strings.Contains(class, "builder")
 	fc := fileCase{Kind: "file", Class: class, V2: v2, Serial: serial, PreSerial: preSerial, File: intsLines(lines), Wf: wf,
 		Pre: [][]int{}, Orig: []dumpEnt{}, PDump: []dumpEnt{}, AccKV: []kvT{}, SoaN: []int{}, IPS: []ipPrint{}}
 	text := joinLines(lines)
@@ -432,9 +436,9 @@ func runFile(scratch string, lines [][]byte, v2 bool, serial, preSerial uint32, 
 		}
 		fc.SoaN = append(fc.SoaN, z)
 	}
-	fc.Orig, fc.OrigErr = compileDump(scratch, text, serial, v2)
+	fc.Orig, fc.OrigErr = compileDump(scratch, text, serial, v2, builder)
 	if fc.PreErr == "" {
-		fc.PDump, fc.PErr = compileDump(scratch, pre.Bytes(), serial, v2)
+		fc.PDump, fc.PErr = compileDump(scratch, pre.Bytes(), serial, v2, builder)
 	} else {
 		fc.PErr = "skip"
 	}
@@ -488,14 +492,15 @@ func run(a *hlib.Args, e *hlib.Emitter) error {
 	// fixed lines: the samples of data_test.go and the boundary shapes named in DESIGN.md
 	for i, s := range fixedLines {
 		for _, v2 := range []bool{false, true} {
-			e.Emit(runLine([]byte(s), v2, 123456+uint32(i), "fixed", !strings.HasPrefix(s, "?")))
+			wf := !strings.HasPrefix(s, "?")
+			e.Emit(runLine([]byte(strings.TrimPrefix(s, "?")), v2, 123456+uint32(i), "fixed", wf))
 		}
 	}
 	r := hlib.NewRng(a.Seed, 9)
 	g := &gen{r: r}
-	nFiles := a.N / 40
-	if nFiles < 12 {
-		nFiles = 12
+	nFiles := a.N / 100
+	if nFiles < 10 {
+		nFiles = 10
 	}
 	for i := 0; i < a.N; i++ {
 		v2 := r.Chance(1, 2)
@@ -513,13 +518,25 @@ func run(a *hlib.Args, e *hlib.Emitter) error {
 	}
 	rf := hlib.NewRng(a.Seed, 90)
 	gf := &gen{r: rf}
+	type job struct {
+		ls          [][]byte
+		v2          bool
+		serial, pre uint32
+		class       string
+		wf          bool
+	}
+	var jobs []job
 	for i := 0; i < len(fixedFiles); i++ {
-		for _, v2 := range []bool{false, true} {
+		for k, v2 := range []bool{false, true} {
 			var ls [][]byte
 			for _, s := range fixedFiles[i] {
 				ls = append(ls, []byte(s))
 			}
-			e.Emit(runFile(scratch, ls, v2, 1700000000, 1700000000, "fixedfile", true))
+			class := "fixedfile"
+			if i == 0 && k == 0 {
+				class = "fixedfile-builder" // one compilation pair through the bulk builder (1 GB allocation each)
+			}
+			jobs = append(jobs, job{ls, v2, 1700000000, 1700000000, class, true})
 		}
 	}
 	for i := 0; i < nFiles; i++ {
@@ -531,10 +548,34 @@ func run(a *hlib.Args, e *hlib.Emitter) error {
 			pre = 0
 			class = "file-noserial"
 		}
+		if a.Tier == "thorough" && rf.Chance(1, 10) {
+			class += "-builder"
+		}
 		ls, wf, cl := gf.file()
-		e.Emit(runFile(scratch, ls, v2, serial, pre, class+cl, wf))
+		jobs = append(jobs, job{ls, v2, serial, pre, class + cl, wf})
+	}
+	// the compilations run in parallel; the cases are emitted in generation order
+	res := make([]fileCase, len(jobs))
+	sem := make(chan struct{}, 6)
+	var wg sync.WaitGroup
+	for i := range jobs {
+		wg.Add(1)
+		sem <- struct{}{}
+		go func(i int) {
+			defer wg.Done()
+			defer func() { <-sem }()
+			j := jobs[i]
+			res[i] = runFile(scratch, j.ls, j.v2, j.serial, j.pre, j.class, j.wf)
+		}(i)
+	}
+	wg.Wait()
+	for i := range res {
+		e.Emit(res[i])
 	}
 	return nil
 }
 
-func main() { hlib.Main(run) }
+func main() {
+	log.SetOutput(io.Discard)
+	hlib.Main(run)
+}
